@@ -27,7 +27,8 @@ LEVEL_TEXT = ("Coq theorems: every operator body translated from operators.py eq
               "the expression() loop parses the minimal-bracket printing of every expression tree of any depth back to that tree "
               "modulo grouping, hence to the same value; literals of every spelling lex to their value for all n : N; bare 8/9 and "
               "-8 are errors; character literals pack little-endian. The hand models (lexer, shunting loop) are tied to the code by "
-              "the sweeps described in 'rule'.")
+              "the sweeps described in 'rule'. The operand-keyed result cache of impure operators (wrap_impure, discipline regenerated from the "
+              "source) is proved transparent for every sequence of evaluations of one token.")
 LEVEL_NOTE = ("Trusted: Coq kernel + vm_compute, tools/gens/gen_operators.py and its reading of Python int semantics (py_* in the "
               "generated header), the harness (tools/props/c05.py, tools/c05_expr.py: program layout, symbol values, rendering of "
               "tokens to text), Spec/Arith.v as the meaning of 'documented arithmetic'. Tokenisation of the source text and the "
@@ -566,6 +567,8 @@ def explore(rep, br, tier, seed):
                                 "descending / shuffled; placed before / after / split around the use; 4 link bases incl. none) under 48 usage "
                                 "templates per symbol pair: -s, 0-s, k*s, s*k, a-s, s-t, s+t, k*s-k*t, and / % & _ ^ | ~ << >> of s and of s-t "
                                 "(thorough: all 27 order x placement x length shapes; quick: 5 of them incl. the all-forward-reference one)")
+    rep.exhaustive_parts.append("re-evaluation of one token with changing operands: every infix operator in 11-12 '.'-dependent templates and all 16 "
+                                "pairs of the impure operators / % << >>, inside .repeat bodies of 2-4 copies, as .dword / .word / immediate / index operand")
     rep.exhaustive_parts.append("every infix operator on a 15x15 grid of operand values, every prefix operator on 15 values")
     rep.exhaustive_parts.append("9 number spellings x prefix case x digit case x sign on 21 boundary values; bare 8/9 strings; character and radix-50 literals")
     for i in (0, len(recs) // 3, len(recs) - 7, len(recs) - 1):
